@@ -15,7 +15,7 @@ import vlib
 
 LEVEL = "model_checking"
 
-ALPHA = ["a", "SP", "NL", "TAB", "$", "`", "DQ", "'", "\\", "*", "?", "[", "]", "~", "#", ";", "&", "|", "<", "(", "{", "=", ":", "!", "-", "U1"]
+ALPHA = ["a", "SP", "NL", "TAB", "$", "`", "DQ", "'", "\\", "*", "?", "[", "]", "~", "#", ";", "&", "|", "<", "(", "{", "=", ":", "!", "-", "/", "U1"]
 
 
 def tla_seq(xs):
@@ -23,10 +23,10 @@ def tla_seq(xs):
 
 
 def run(R):
-    R.rule = ("cases = (string, spelling, mode): every string up to MaxLen symbols over 26 characters (all shell specials, blank, tab, "
+    R.rule = ("cases = (string, spelling, mode): every string up to MaxLen symbols over 27 characters (all shell specials, blank, tab, "
               "newline, a multi-byte character) x {single, double, backslash, mixed} x {default, Arith, Assign, Literal, Quote, "
               "Pattern}; exhaustive; distinct_nontrivial = distinct strings containing at least one character that is special to the shell")
-    R.assumptions = ["the environment is fixed and adversarial (IFS 'a :<tab><nl>*$', HOME, 3 positional parameters, files a aa b * ? [ ~ ...)",
+    R.assumptions = ["the environment is fixed and adversarial (IFS 'a :<tab><nl>*$', HOME, 3 positional parameters, files aa b * ? [ ~ ..., a directory a holding a and *)",
                      "Pattern mode is judged with Pattern.tla's parser and matcher on the returned pattern"]
     maxlen = 3 if R.tier == "quick" else 4
     defs = "MCAlpha == %s\n" % tla_seq(ALPHA)
